@@ -522,7 +522,7 @@ do_xts(const cmd *c)
         ev_int("inpl", inpl);
         ev_int("rc", !strcmp(fam, "isal") ? (long long) (int) r : 0);
         ev_int("untouched", o.fault ? 0 : before == mem_sum(out.p, len));
-        ev_hex("out", out.p, o.fault ? 0 : len);
+        ev_hex("out", out.p, (o.fault || len < 16) ? 0 : len); /* below 16 bytes the call is a documented no-op */
         ev_obs(&o);
         ev_end();
         gbuf_free(&k1);
